@@ -236,12 +236,9 @@ func (c *Ctx) Err() error {
 
 // Cancel cancels the context (a scheduling point: closes the Done channel).
 func (c *Ctx) Cancel() {
-	Yield(c.name + ".cancel")
-	if c.err != nil {
-		return
-	}
-	c.err = context.Canceled
-	Close(c.done)
+	o := &op{kind: opYield, what: c.name + ".cancel"}
+	E.yield(o)
+	c.CancelNow()
 }
 
 // CancelNow cancels without a separate scheduling point before it (used by writers/readers that
@@ -320,6 +317,12 @@ func LookupSync(p unsafe.Pointer, kind string) *SyncObj {
 
 // OnceEnter blocks while another thread runs the once function; it returns true if the caller must run it.
 func OnceEnter(s *SyncObj) bool {
+	if s.state == 2 {
+		// Done never changes again: the call commutes with every other operation, so it is not a
+		// scheduling point. The caller still learns what the once function published.
+		E.cur.hist = mix(mix(E.cur.hist, hOnceDone), s.hash)
+		return false
+	}
 	o := &op{kind: opOnce, obj: s}
 	E.yield(o)
 	return o.chosen == 1
